@@ -117,6 +117,10 @@ class HubWorld:
         self.histories = []
         self.waits = []
         self.closed = [('P', b'history_map'), ('B', b'v2_wait'), ('B', b'wait')]
+        self.contract = 'hub'
+        self.crate = HUB
+        self.self_addr = self.hub_addr
+        self.height = 12345
 
     def iv(self, name, lo, hi):
         v = z3.Int(name)
@@ -559,3 +563,16 @@ def spec_rate(I, st, B, claims):
     """floor(B*1e18/claims), or 1 when either factor is zero (the contract's definition of an exchange rate)."""
     q = sdiv(I, st, B * E, claims)
     return z3.If(z3.Or(B == 0, claims == 0), E, q)
+
+
+def hub_querier_template(W):
+    """querier facts of a HubWorld as a scenario template."""
+    def q(T):
+        return {'balances': [{'address': T.string(W.hub_addr), 'denom': T.string(W.denom), 'amount': T.value(U128(W.hub_balance))}],
+                'delegations': [{'validator': T.string(v), 'amount': T.value(U128(a)), 'denom': T.string(W.denom)}
+                                for v, a in zip(W.del_validators, W.del_amounts)],
+                'validators': [{'address': T.string(v), 'total_delegated': T.value(U128(a))} for v, a in zip(W.val_names, W.val_amounts)],
+                'supplies': [{'token': T.string(W.bsei_token), 'supply': T.value(U128(W.Sb))},
+                             {'token': T.string(W.stsei_token), 'supply': T.value(U128(W.Ss))}],
+                'cw20_balances': []}
+    return q
